@@ -101,7 +101,7 @@ impl RefEnc for ZT {
 }
 impl KEq for ZT {
     fn keq(&self, o: &Self) -> bool {
-        self.0.keq(&o.0) && self.1 == o.1
+        self.0.keq(&o.0) && self.1[0] == o.1[0] && self.1[1] == o.1[1]
     }
 }
 
@@ -297,7 +297,7 @@ impl<P: Clone, const Q: usize> RefEnc for GP<P, Q> {
 }
 impl<P: Clone, const Q: usize> KEq for GP<P, Q> {
     fn keq(&self, o: &Self) -> bool {
-        self.arr == o.arr
+        keq_seq(&self.arr[..], &o.arr[..])
     }
 }
 
